@@ -11,7 +11,9 @@ Term := tuple
   ('sub', base, index)                      subscript read
   ('attr', base, name)                      attribute read on a non-package value
   ('dict', items)  ('list', elems) ('fstr', parts)
-  ('elem', src)                             element of an iterable / value stored into a container
+  ('elem', src)                             element taken from an iterable
+  ('added', src) ('kelem', key, src)        value added to / stored under a key of a container
+  ('inloop', value, iterable)               value produced inside a loop over iterable (order carrier)
   ('inst', classqual, bound)                package class instance, bound = tuple[(param, frozenset)]
   ('selfattr', classqual, name)             attribute without any store
   ('global', module, name)
@@ -49,6 +51,7 @@ class Flow:
         self.depth_hits = 0
         self.rec_hits = 0
         self._memo = {}
+        self._fstack = []
         self._keep = []
 
     # ------------------------------------------------------------------ helpers
@@ -71,47 +74,80 @@ class Flow:
         return None
 
     def local_mutations(self, fn):
-        """name -> [value expr] for container mutations of local names;  ('self', attr) -> [...] for self attrs."""
+        """root -> [(value expr, site, key path exprs, leaf)] for container mutations.
+
+        root is a local name or ('self', attr); key path are the subscript keys between the root and the mutated
+        container (plus the stored key for subscript stores); leaf is 'store' or 'elem'."""
         if fn in self._mutdefs:
             return self._mutdefs[fn]
         out = {}
 
-        def key_of(e):
+        def root_path(e):
+            keys = []
+            while isinstance(e, ast.Subscript):
+                keys.append(e.slice)
+                e = e.value
+            keys.reverse()
             if isinstance(e, ast.Name):
-                return e.id
+                return e.id, keys
             if isinstance(e, ast.Attribute) and isinstance(e.value, ast.Name) and e.value.id == fn.self_name:
-                return ("self", e.attr)
-            if isinstance(e, ast.Subscript):
-                return key_of(e.value)
-            return None
+                return ("self", e.attr), keys
+            return None, keys
 
         for n in own_nodes(fn.node):
             if isinstance(n, ast.Call) and isinstance(n.func, ast.Attribute):
                 if n.func.attr in MUTATORS:
-                    k = key_of(n.func.value)
+                    k, keys = root_path(n.func.value)
                     if k is not None:
-                        for a in n.args:
-                            out.setdefault(k, []).append((a, n))
-                        for kw in n.keywords:
-                            out.setdefault(k, []).append((kw.value, n))
+                        if n.func.attr == "setdefault" and n.args:
+                            if len(n.args) > 1:
+                                out.setdefault(k, []).append((n.args[1], n, keys + [n.args[0]], "store"))
+                        else:
+                            for a in n.args:
+                                out.setdefault(k, []).append((a, n, keys, "elem"))
+                            for kw in n.keywords:
+                                out.setdefault(k, []).append((kw.value, n, keys, "elem"))
                 if n.func.attr in OUTPARAM_METHODS and n.args:
-                    k = key_of(n.args[OUTPARAM_METHODS[n.func.attr]])
+                    k, keys = root_path(n.args[OUTPARAM_METHODS[n.func.attr]])
                     if k is not None:
-                        out.setdefault(k, []).append((n.func.value, n))
+                        out.setdefault(k, []).append((n.func.value, n, keys, "elem"))
             elif isinstance(n, ast.Assign):
                 for t in n.targets:
                     if isinstance(t, ast.Subscript):
-                        k = key_of(t.value)
+                        k, keys = root_path(t)
                         if k is not None:
-                            out.setdefault(k, []).append((n.value, n))
-                            out.setdefault(k, []).append((t.slice, n))
+                            out.setdefault(k, []).append((n.value, n, keys, "store"))
             elif isinstance(n, ast.AugAssign):
                 if isinstance(n.target, (ast.Subscript, ast.Attribute)):
-                    k = key_of(n.target)
+                    k, keys = root_path(n.target)
                     if k is not None:
-                        out.setdefault(k, []).append((n.value, n))
+                        out.setdefault(k, []).append((n.value, n, keys, "elem"))
         self._mutdefs[fn] = out
         return out
+
+    def mut_term(self, val, site, keys, leaf, f, env, depth):
+        """Term of one mutation record (see local_mutations)."""
+        inner = self.term(val, f, env, depth + 1)
+        # ordered containers filled inside a loop inherit the loop's iteration order
+        n = self.prog.parent.get(site)
+        while n is not None and n is not f.node:
+            if isinstance(n, ast.For):
+                inner = fs(("inloop", inner, self.term(n.iter, f, env, depth + 1)))
+                break
+            n = self.prog.parent.get(n)
+        keys = list(keys)
+        if leaf == "store" and keys:
+            last = keys.pop()
+            if isinstance(last, ast.Slice):
+                t = ("added", inner)
+            else:
+                t = ("kelem", self.term(last, f, env, depth + 1), inner)
+        else:
+            t = ("added", inner)
+        for k in reversed(keys):
+            kt = fs(("const", "slice")) if isinstance(k, ast.Slice) else self.term(k, f, env, depth + 1)
+            t = ("kelem", kt, fs(t))
+        return t
 
     def attr_stores(self, cls, attr):
         """[(value expr | None, Func, stmt node, kind)] for stores to attribute `attr` on instances of cls family."""
@@ -149,8 +185,8 @@ class Flow:
                             if isinstance(t, ast.Attribute) and isinstance(t.value, ast.Name) and t.value.id == sn and t.attr == attr:
                                 out.append((n.iter, m, n, "iter"))
                 # container mutations through self.attr
-                for (val, site) in self.local_mutations(m).get(("self", attr), []):
-                    out.append((val, m, site, "mut"))
+                for (val, site, keys, leaf) in self.local_mutations(m).get(("self", attr), []):
+                    out.append((val, m, site, ("mut", tuple(keys), leaf)))
             if attr in c.class_assigns:
                 for v in c.class_assigns[attr]:
                     out.append((v, None, c.node, "class"))
@@ -199,6 +235,32 @@ class Flow:
             self._keep.append(expr)
         return out
 
+    def _pick(self, base, key, idx):
+        """Value of base[key] for a constant string key: dictionary literals and keyed mutations are field-sensitive."""
+        picked = set()
+        rest = set()
+        for b in base:
+            if b[0] == "dict":
+                for kt, vt in b[1]:
+                    if any(k == ("const", key) for k in kt) or any(k[0] != "const" for k in kt):
+                        picked |= vt
+            elif b[0] == "kelem":
+                if any(k == ("const", key) for k in b[1]) or any(k[0] != "const" for k in b[1]):
+                    picked |= b[2]
+            elif b[0] == "inloop":
+                sub = self._pick(b[1], key, idx)
+                picked |= sub
+            elif b[0] == "ext" and b[1] in ("builtins.dict", "builtins.sorted", "builtins.list", "builtins.tuple",
+                                            "collections.OrderedDict", "copy.copy", "copy.deepcopy") and b[2]:
+                picked |= self._pick(b[2][0], key, idx)     # content-preserving copy
+            elif b[0] == "meth" and b[1] in ("items", "copy") and b[2]:
+                picked |= self._pick(b[2], key, idx)
+            else:
+                rest.add(b)
+        if rest:
+            picked.add(("sub", frozenset(rest), idx))
+        return frozenset(picked)
+
     def _many(self, exprs, fn, env, depth, mod):
         return tuple(self.term(e, fn, env, depth, mod) for e in exprs)
 
@@ -219,7 +281,7 @@ class Flow:
         if isinstance(e, ast.Dict):
             return fs(("dict", tuple((T(k) if k is not None else fs(("unknown", "**")), T(v)) for k, v in zip(e.keys, e.values))))
         if isinstance(e, (ast.ListComp, ast.SetComp, ast.GeneratorExp)):
-            return fs(("list", (T(e.elt),)))
+            return fs(("inloop", fs(("list", (T(e.elt),))), T(e.generators[0].iter)))
         if isinstance(e, ast.DictComp):
             return fs(("dict", ((T(e.key), T(e.value)),)))
         if isinstance(e, ast.Starred):
@@ -243,23 +305,10 @@ class Flow:
                 idx = fs(("const", "slice"))
             else:
                 idx = T(e.slice)
-            # field-sensitive read through dictionary literals with a constant key
-            picked = set()
-            allpicked = True
+            # field-sensitive read for a constant string key
             ck = [t[1] for t in idx if t[0] == "const"]
-            for b in base:
-                if b[0] == "dict" and len(ck) == 1 and len(idx) == 1:
-                    hit = False
-                    for kt, vt in b[1]:
-                        if any(k[0] == "const" and k[1] == ck[0] for k in kt):
-                            picked |= vt
-                            hit = True
-                    if not hit:
-                        allpicked = False
-                else:
-                    allpicked = False
-            if picked and allpicked:
-                return frozenset(picked)
+            if len(ck) == 1 and len(idx) == 1 and isinstance(ck[0], str) and ck[0] != "slice":
+                return self._pick(base, ck[0], idx)
             return fs(("sub", base, idx))
         if isinstance(e, ast.Name):
             return self._name(e, fn, env, depth, mod)
@@ -397,8 +446,8 @@ class Flow:
                 out.add(("unknown", "exception"))
             elif what == "import":
                 out.add(("global", f.module.name, name))
-        for (val, site) in self.local_mutations(f).get(name, []):
-            out.add(("elem", self.term(val, f, env, depth + 1)))
+        for (val, site, keys, leaf) in self.local_mutations(f).get(name, []):
+            out.add(self.mut_term(val, site, keys, leaf, f, env, depth))
         return frozenset(out)
 
     def _iter_elems(self, it_terms, env, depth):
@@ -534,9 +583,9 @@ class Flow:
                         out |= self.term(val, None, {}, depth + 1, c.module)
                         continue
                     if idx == "iter":
-                        out.add(("elem", self.term(val, m2, benv, depth + 1)))
-                    elif idx == "mut":
-                        out.add(("elem", self.term(val, m2, benv, depth + 1)))
+                        out |= self._iter_elems(self.term(val, m2, benv, depth + 1), benv, depth)
+                    elif isinstance(idx, tuple) and idx[0] == "mut":
+                        out.add(self.mut_term(val, site, idx[1], idx[2], m2, benv, depth))
                     elif idx == "aug":
                         out.add(("op", "aug", (self.term(val, m2, benv, depth + 1),)))
                     elif isinstance(idx, int):
@@ -587,7 +636,7 @@ class Flow:
         for t in terms:
             if t[0] == "inst":
                 out.append(t)
-            elif t[0] in ("elem",):
+            elif t[0] in ("elem", "added", "inloop"):
                 out += self._insts_in(t[1], depth + 1)
             elif t[0] == "sub":
                 out += self._insts_in(t[1], depth + 1)
@@ -616,8 +665,10 @@ class Flow:
                 continue
             if m2 is None:
                 out |= self.term(val, None, {}, depth + 1, cls.module)
-            elif idx in ("iter", "mut"):
-                out.add(("elem", self.term(val, m2, benv, depth + 1)))
+            elif idx == "iter":
+                out |= self._iter_elems(self.term(val, m2, benv, depth + 1), benv, depth)
+            elif isinstance(idx, tuple) and idx[0] == "mut":
+                out.add(self.mut_term(val, site, idx[1], idx[2], m2, benv, depth))
             elif idx == "aug":
                 out.add(("op", "aug", (self.term(val, m2, benv, depth + 1),)))
             elif isinstance(idx, int):
@@ -644,7 +695,7 @@ class Flow:
 
     def _local_reaching(self, stores, fn, use):
         """Prefer the stores of the current function that reach the read (see DESIGN 3.6)."""
-        mine = [s for s in stores if s[1] is fn and s[3] not in ("mut",)]
+        mine = [s for s in stores if s[1] is fn and not isinstance(s[3], tuple)]
         if not mine:
             return stores
         g = self.cfg(fn)
@@ -667,7 +718,7 @@ class Flow:
         lastpos = (last[0][2].lineno, last[0][2].col_offset)
         chosen = [s for s, sn in before if (s[2].lineno, s[2].col_offset) >= lastpos]
         # container mutations of the attribute anywhere still contribute
-        chosen += [s for s in stores if s[3] == "mut"]
+        chosen += [s for s in stores if isinstance(s[3], tuple)]
         return chosen
 
     # .................................................................. calls
@@ -699,7 +750,7 @@ class Flow:
         for t in terms:
             if t[0] == "dict":
                 out.append(t)
-            elif t[0] in ("elem", "sub"):
+            elif t[0] in ("elem", "sub", "added", "inloop"):
                 out += self._dicts_in(t[1], depth + 1)
             elif t[0] == "list":
                 for p in t[1]:
@@ -734,6 +785,10 @@ class Flow:
                     out.add(("inst", (cls or callee.cls).qual, bound))
                     continue
                 skip_self = callee.cls is not None and not callee.is_static
+                if self._fstack.count(callee) >= 1:
+                    self.rec_hits += 1
+                    out.add(("rec", callee.qual))
+                    continue
                 cenv = self._bind_env(callee, e, fn, env, depth, skip_self)
                 # receiver built by a constructor: bind its constructor parameters too
                 if isinstance(e.func, ast.Attribute) and skip_self:
@@ -741,19 +796,23 @@ class Flow:
                         if rt[0] == "inst":
                             for pn, pv in rt[2]:
                                 cenv.setdefault(pn, pv)
-                if callee.is_generator:
-                    ys = [n for n in own_nodes(callee.node) if isinstance(n, (ast.Yield, ast.YieldFrom)) and n.value is not None]
-                    got = set()
-                    for y in ys:
-                        tt = self.term(y.value, callee, cenv, depth + 1)
-                        got.add(("elem", tt))
-                    out |= got or {("const", None)}
-                else:
-                    rets = self.res.return_exprs(callee)
-                    if not rets:
-                        out.add(("const", None))
-                    for r in rets:
-                        out |= self.term(r, callee, cenv, depth + 1)
+                self._fstack.append(callee)
+                try:
+                    if callee.is_generator:
+                        ys = [n for n in own_nodes(callee.node) if isinstance(n, (ast.Yield, ast.YieldFrom)) and n.value is not None]
+                        got = set()
+                        for y in ys:
+                            tt = self.term(y.value, callee, cenv, depth + 1)
+                            got.add(("elem", tt))
+                        out |= got or {("const", None)}
+                    else:
+                        rets = self.res.return_exprs(callee)
+                        if not rets:
+                            out.add(("const", None))
+                        for r in rets:
+                            out |= self.term(r, callee, cenv, depth + 1)
+                finally:
+                    self._fstack.pop()
             elif t[0] == "new":
                 out.add(("inst", t[1].qual, ()))
             elif t[0] == "ext":
@@ -840,6 +899,12 @@ def show1(t, depth=0, maxdepth=6):
         return "%s.%s" % (S(t[1]), t[2])
     if k == "elem":
         return "elem(%s)" % S(t[1])
+    if k == "kelem":
+        return "[%s]=%s" % (S(t[1]), S(t[2]))
+    if k == "added":
+        return "+(%s)" % S(t[1])
+    if k == "inloop":
+        return "%s@loop(%s)" % (S(t[1]), S(t[2]))
     if k == "list":
         return "[%s]" % ", ".join(S(x) for x in t[1])
     if k == "dict":
